@@ -316,7 +316,33 @@ func VerifIntrospectionRoundTrip() {
 		for _, fd := range d.Fields {
 			gf := g.Fields.ForName(fd.Name)
 			verifAssert(gf != nil && gf.Type.String() == fd.Type.String(), "the rebuilt schema has every field with its type: "+name+"."+fd.Name)
+			if gf == nil {
+				continue
+			}
+			verifAssert((gf.DefaultValue != nil) == (fd.DefaultValue != nil), "the rebuilt schema has the input field defaults: "+name+"."+fd.Name)
+			if gf.DefaultValue != nil && fd.DefaultValue != nil {
+				verifAssert(gf.DefaultValue.String() == fd.DefaultValue.String(), "the rebuilt schema has the input field defaults: "+name+"."+fd.Name)
+			}
+			verifAssert((gf.Directives.ForName("deprecated") != nil) == (fd.Directives.ForName("deprecated") != nil), "the rebuilt schema has the deprecations: "+name+"."+fd.Name)
+			verifAssert(len(gf.Arguments) == len(fd.Arguments), "the rebuilt schema has every argument: "+name+"."+fd.Name)
+			for _, a := range fd.Arguments {
+				ga := gf.Arguments.ForName(a.Name)
+				verifAssert(ga != nil && ga.Type.String() == a.Type.String(), "the rebuilt schema has every argument with its type")
+				if ga != nil {
+					verifAssert((ga.DefaultValue != nil) == (a.DefaultValue != nil), "the rebuilt schema has the argument defaults: "+name+"."+fd.Name+"."+a.Name)
+					if ga.DefaultValue != nil && a.DefaultValue != nil {
+						verifAssert(ga.DefaultValue.String() == a.DefaultValue.String(), "the rebuilt schema has the argument defaults: "+name+"."+fd.Name+"."+a.Name)
+					}
+				}
+			}
 		}
+		verifAssert(len(g.EnumValues) == len(d.EnumValues), "the rebuilt schema has every enum value: "+name)
+		for _, ev := range d.EnumValues {
+			gv := g.EnumValues.ForName(ev.Name)
+			verifAssert(gv != nil && (gv.Directives.ForName("deprecated") != nil) == (ev.Directives.ForName("deprecated") != nil), "the rebuilt schema has the enum value deprecations: "+name+"."+ev.Name)
+		}
+		verifAssert(len(g.Interfaces) == len(d.Interfaces), "the rebuilt schema has the implements clauses: "+name)
+		verifAssert(len(g.Types) == len(d.Types), "the rebuilt schema has the union members: "+name)
 	}
 	verifReach("round trip")
 }
